@@ -61,10 +61,28 @@ def boundary_cases(rng, n):
             ehi = [rng.choice([-1, 1]) * (1 + 0.01 * i) for i in range(m)]
         elo = [v + rng.choice([0.0, 3.0, -3.0]) for v in ehi]
         elo = [v if v != 0 else 0.5 for v in elo]
+        if rng.random() < 0.15:      # a rounding error away from the limit: only the sign may matter
+            sc = rng.choice([1e-7, 5e-7, 1e-10])
+            ehi, elo = [v * sc for v in ehi], [v * sc for v in elo]
         c = rng.choice(counts)
         cap = rng.choice([None, 2, c, c + 1, max(2, c - 1), 10 ** 6, counts[0], counts[0] + 1])
         out.append(("b1d", (counts, elo, ehi, cap, rng.random() < 0.5, 15)))
     return out
+
+
+def independent_counts(geom):
+    """Borehole counts of the candidate domain for a near-square / rectangle geometry, from the domain generators called directly."""
+    import math
+
+    from ghedesigner import domains as D
+
+    with ghelib.quiet():
+        if geom[0] == "NEARSQUARE":
+            n = math.floor(geom[2] / geom[1]) + 1
+            return [len(f) for f in D.square_and_near_square(1, int(n), geom[1])[0]]
+        if geom[0] == "RECTANGLE":
+            return [len(f) for f in D.rectangular(geom[1], geom[2], geom[3], geom[4])[0]]
+    return []
 
 
 def cli_worker_job(job):
@@ -84,6 +102,11 @@ def cli_worker_job(job):
             m = ghelib.build_manager(cfg)
             inp = d / "in.json"
             m.write_input_file(inp)
+            if cfg.get("explicit_false"):
+                import json as _json
+                j = _json.loads(inp.read_text())
+                j["design"]["continue_if_design_unmet"] = False
+                inp.write_text(_json.dumps(j, indent=2))
             try:
                 rc = _run_manager_from_cli_worker(inp, d / "out")
                 files = sorted(p.name for p in (d / "out").iterdir()) if (d / "out").exists() else []
@@ -102,7 +125,9 @@ def cli_jobs(rng):
             "flow": phys["flow"], "geom": ("NEARSQUARE", 6.0, 20.0 + rng.randrange(0, 10))}
     big = [x * 8.0 for x in ghelib.atlanta_loads()]
     ok = [x * 0.05 for x in ghelib.atlanta_loads()]
-    return [("unmet-no-flag", {**base, "loads": big, "cont": False}), ("unmet-flag", {**base, "loads": big, "cont": True}), ("met", {**base, "loads": ok, "cont": False})]
+    return [("unmet-no-flag", {**base, "loads": big, "cont": False}), ("unmet-flag", {**base, "loads": big, "cont": True}), ("met", {**base, "loads": ok, "cont": False}),
+            # the documented default written out explicitly in the file ("continue_if_design_unmet": false)
+            ("unmet-explicit-false", {**base, "loads": big, "cont": False, "explicit_false": True})]
 
 
 def run(ctx: core.Ctx):
@@ -136,6 +161,7 @@ def run(ctx: core.Ctx):
                     ctx.extra["first_disagreement"] = {"case": c, "real": r, "model": model[idx]}
         ctx.case((kind, repr(a)), not out_r.endswith("bracket0"), {"kind": kind, "args": a, "real": r} if idx in (1, 2600) else None)
         if kind == "b1d":
+            searchlib.check_b1d_exchanger(ctx, a, out_r)
             check_policy_1d(ctx, a, out_r, tr_r)
         else:
             searchlib.check_nested_predicate(ctx, kind, a, out_r, tr_r)
@@ -201,6 +227,15 @@ def run(ctx: core.Ctx):
                     ctx.finding("unmet-not-an-error", f"{g}: unmet design ({cls}) without the flag ended with {r['outcome']}", rep)
                 if cfg["cont"]:
                     want_n = ev[2]["nbh"] if cls == "tooBig" else ev[0]["nbh"]
+                    if cls == "tooBig":
+                        # the largest ALLOWED candidate of the domain the user's geometry defines (built here, not read from the design)
+                        indep = independent_counts(cfg["geom"])
+                        cap = cfg.get("max_boreholes")
+                        # (the cap is STRICT in the tool: a field needs fewer than max_boreholes holes — Bisection1D.search, `x < max_boreholes`;
+                        # "never exceeds" holds a fortiori; recorded as an observation in DESIGN.md §8)
+                        allowed = [c for c in indep if cap is None or c < cap]
+                        if allowed:
+                            want_n = max(allowed)
                     want_h = cfg["max_h"] if cls == "tooBig" else cfg["min_h"]
                     if r["outcome"] != "design" or r["nbh"] != want_n or abs(r["H"] - want_h) > 1e-9:
                         ctx.finding("unmet-fallback-wrong", f"{g}: unmet ({cls}) with the flag returned {r.get('nbh')} x {r.get('H')}, expected {want_n} x {want_h}", rep)
@@ -216,6 +251,12 @@ def run(ctx: core.Ctx):
                         ctx.finding("unmet-not-an-error", f"{g}: unmet design (tooSmall) without the flag ended with {r['outcome']}", rep)
                     if cfg["cont"] and (r["outcome"] != "design" or r["nbh"] != ev[0]["nbh"] or abs(r["H"] - cfg["min_h"]) > 1e-9):
                         ctx.finding("unmet-fallback-wrong", f"{g}: loads too small with the flag: returned {r['outcome']} {r.get('nbh')} x {r.get('H')}, expected the smallest candidate ({ev[0]['nbh']} borehole) at the minimum height {cfg['min_h']}", rep)
+    # ---------------- (iii-a) utilities.solve_root on arbitrary end values (falling AND rising objectives): window and clamp
+    for kind, args in searchlib.root_cases(rng, 300 if quick else 3000):
+        out_r = searchlib.real_solve_root(*args)[0]
+        ctx.case(("root", repr(args)), True)
+        ctx.count("solve_root:" + str(out_r[0]).split()[0])
+        searchlib.check_root_predicate(ctx, args, out_r)
     # ---------------- (iii-b) the file-driven entry point on unmet and met designs
     jobs = cli_jobs(rng)
     for (kind, cfg), (outc, det) in zip(jobs, core.pool_map(cli_worker_job, jobs)):
@@ -227,9 +268,9 @@ def run(ctx: core.Ctx):
             ctx.infra(f"cli-worker {kind}: {det}")
         elif outc.startswith("raise"):
             ctx.finding(f"cli-exception-type-{outc.split()[1]}", f"file-driven run ({kind}) ended with {outc}: {det.get('message')}", rep)
-        elif kind == "unmet-no-flag" and outc != "ValueError":
+        elif kind in ("unmet-no-flag", "unmet-explicit-false") and outc != "ValueError":
             ctx.finding("cli-unmet-not-an-error", f"file-driven run with loads too large and no continue flag {outc} {det} instead of ending with the search's ValueError", rep)
-        elif kind != "unmet-no-flag" and outc != "returned":
+        elif kind not in ("unmet-no-flag", "unmet-explicit-false") and outc != "returned":
             ctx.finding("cli-design-run-failed", f"file-driven run ({kind}) ended with {outc}: {det.get('message')}", rep)
     # ---------------- (iv) a second project on the SAME manager (only loads and geometry re-applied)
     by_id = {r["id"]: (c, r) for c, r in zip(cfgs, recs)}
